@@ -515,7 +515,7 @@ def check_forest(impl):
 
 NONFIX_SIGNATURE = 'C03/member-not-fixpoint/apply/Union-result-dispatches-to-another-candidate'
 FOREIGN_SIGNATURE = 'C03/symbolic-value/child-keeps-its-own-spec/later-write'
-PLACEHOLDER_SIGNATURE = 'C03/required-missing/copy-of-a-partial-list/placeholder-kept'
+PLACEHOLDER_SIGNATURE = 'C03/required-missing/non-partial-list/placeholder-kept'
 
 # ---- when may a value that carries its own spec stand in a field: the rule, written independently of the library ----------------------
 # (the intended is_compatible: Typing.compat of coq/Model/Typing.v without quirk flags, on spec trees)
@@ -750,7 +750,9 @@ class Oracle:
     """(property, clause, operation kind, discriminator).  Two families are keyed by their cause rather than by the symptom, because
     one defect shows up under many clauses and operations: a symbolic value (a reference to a pg.Dict / pg.List / pg.Object, or a
     constructed one) written into a spec-checked container, and a write below the container held by a frozen field."""
-    if clause == 'required-missing' and disc == 'list-placeholder' and op[0] in (D.LCOPY, D.LADD):
+    if clause == 'required-missing' and disc == 'list-placeholder':
+      # a partial list that holds the placeholder of a removed element has become a list that is not partial: by copy() / +,
+      # or handed by reference to a field that overrides its allow_partial flag (sym_missing does not count placeholders)
       return PLACEHOLDER_SIGNATURE
     if clause == 'partial-object-accepted':
       return 'C03/partial-object-accepted/%s/%s' % (name, disc)
